@@ -69,11 +69,11 @@ def run(chk):
             for d, v in ds:
                 cl = PC.pc(d)
                 follow = PC.has_lit(cl, "self._break_symlink_sandbox", True) is not None
-                src = norm.raw(v.func.value) if isinstance(v, ast.Call) else ""
+                src = norm.raw(v.func.value) if isinstance(v, ast.Call) and isinstance(v.func, ast.Attribute) else ""
                 blk = PC._block_of(d)
                 if follow:
                     prior = blk[: blk.index(d)]
-                    okf = any(M.contains(x, f"{src}.relative_to(self._directory)") for x in prior)
+                    okf = bool(src) and src.isidentifier() and any(M.contains(x, f"{src}.relative_to(self._directory)") for x in prior)
                     sd = norm.fn_defs(rp.node).defs.get(src, [])
                     normed = bool(sd) and all(v2 is not None and "os.path.normpath(" in norm.raw(v2) for _d2, v2 in sd)
                     if okf and normed:
